@@ -1,7 +1,8 @@
 (* C15 property theorems ONLY (each closed by an already proved lemma) + assumptions.
    Models: C15/Boundary.v (src/boundary.c), C15/Tree.v (src/tree.c: functional PR-octree, dump checker, gravity data). *)
 From Coq Require Import ZArith List Bool Reals Permutation.
-From RV Require Import Common.Num Common.RealNum C15.Boundary C15.Tree C15.BoundaryProofs C15.TreeProofs C15.GravityProofs.
+From RV Require Import Common.Num Common.RealNum C15.Boundary C15.Tree C15.Tree2 C15.Update C15.BoundaryProofs C15.TreeProofs C15.GravityProofs
+  C15.CanonProofs C15.ForestProofs C15.UpdateProofs C15.PruneProofs.
 Import ListNotations.
 
 (* Periodic wrap of one coordinate (both C while-loops), any box length L>0, any x: once the fuel covers |x|/L the
@@ -96,6 +97,87 @@ Theorem C15_wf_b_sound : forall u pos L N roots, forest_b u pos L N roots = true
   Permutation (flat_map (fun cd => leaves (erase (snd cd))) roots) (seq 0 N).
 Proof. exact forest_b_sound. Qed.
 Print Assumptions C15_wf_b_sound.
+
+(* ===== round 2 ===== *)
+
+(* Canonical shape, insertion-order independence (exact arithmetic): two insertion orders of the same particle set
+   into an empty cell give the SAME tree (no hypothesis beyond both insertions succeeding, i.e. pairwise distinct
+   positions within the resolution). *)
+Theorem C15_build_order_independent : forall u pos l c pts pts' r r', Permutation pts pts' ->
+  build u pos l c None pts = Some r -> build u pos l c None pts' = Some r' -> r = r'.
+Proof. exact build_order_independent. Qed.
+Print Assumptions C15_build_order_independent.
+
+(* Every well-formed tree without a particle on a centre plane of a node above it IS the canonical PR-octree of its
+   leaves ([iscanon]: empty -> NULL, one particle -> leaf, else node whose child o is the canonical tree of the
+   particles the code's comparisons send to octant o). *)
+Theorem C15_wf_canonical : forall u pos l c t, wf u pos l c t -> notie u pos l c t -> iscanon u pos l c (leaves t) (Some t).
+Proof. exact wf_canon. Qed.
+Print Assumptions C15_wf_canonical.
+
+(* Hence the shape is determined by the particle set and the root geometry: two well-formed tie-free trees over the
+   same particles are equal, and a well-formed tie-free tree (e.g. the library's tree when the checker accepts it)
+   equals the tree built by fresh insertion in ANY order: the harness' comparison rests on this theorem. *)
+Theorem C15_canonical_unique : forall u pos l c t1 t2, wf u pos l c t1 -> notie u pos l c t1 -> wf u pos l c t2 -> notie u pos l c t2 ->
+  Permutation (leaves t1) (leaves t2) -> t1 = t2.
+Proof. exact canonical_unique. Qed.
+Print Assumptions C15_canonical_unique.
+Theorem C15_wf_is_fresh_build : forall u pos l c t pts r, wf u pos l c t -> notie u pos l c t -> Permutation (leaves t) pts ->
+  build u pos l c None pts = Some r -> r = Some t.
+Proof. exact wf_is_fresh_build. Qed.
+Print Assumptions C15_wf_is_fresh_build.
+
+(* Forest level (reb_tree_add_particle_to_tree with reb_get_rootbox_for_particle, flattened slot (k*Ny+j)*Nx+i):
+   inserting a particle of the half-open box keeps every root cell well formed w.r.t. the geometry of its slot, keeps
+   every particle in the slot its coordinates select, and adds exactly that particle. *)
+Theorem C15_forest_insert_wf : forall u pos nx ny nz L, (0 < u)%Z -> (0 < nx)%Z -> (0 < ny)%Z -> (0 < nz)%Z ->
+  forall f p f', wf_forest u pos nx ny nz L f -> inbox u nx ny nz L (pos p) -> fadd u pos nx ny nz L f p = Some f' ->
+  wf_forest u pos nx ny nz L f' /\ Permutation (fleaves f') (p :: fleaves f).
+Proof. exact fadd_wf. Qed.
+Print Assumptions C15_forest_insert_wf.
+
+(* ... and building the whole forest from distinct particle indices puts every particle in exactly one leaf. *)
+Theorem C15_forest_each_once : forall u pos nx ny nz L, (0 < u)%Z -> (0 < nx)%Z -> (0 < ny)%Z -> (0 < nz)%Z ->
+  forall pts f, NoDup pts -> Forall (fun p => inbox u nx ny nz L (pos p)) pts ->
+  fbuild u pos nx ny nz L (repeat None (nroot nx ny nz)) pts = Some f ->
+  wf_forest u pos nx ny nz L f /\ NoDup (fleaves f) /\ Permutation (fleaves f) pts.
+Proof. exact forest_each_once. Qed.
+Print Assumptions C15_forest_each_once.
+
+(* In-place update, HEAP model (cells with ids, particles with back pointers; swap-removal, re-insertion during the
+   walk, derefinement: coq/C15/Update.v, compared with reb_simulation_update_tree on pre/post dumps).  Sub-case 'no
+   particle left its cell' (none flagged, counts and back pointers exact): the walk returns the same cell and changes
+   nothing at all in the heap (tree, particle array, N); for the whole array of roots. *)
+Theorem C15_update_stable_identity : forall u nx ny nz L box l st id, stable u l st id ->
+  hupdate u nx ny nz L box l st (Some id) = (st, Some id).
+Proof. exact hupdate_stable. Qed.
+Print Assumptions C15_update_stable_identity.
+Theorem C15_update_tree_stable_identity : forall u nx ny nz L box st,
+  (forall i id, nth_error (hroots st) i = Some (Some id) -> stable u L st id) -> hupdate_tree u nx ny nz L box st = st.
+Proof. exact hupdate_tree_stable. Qed.
+Print Assumptions C15_update_tree_stable_identity.
+
+(* Sub-case 'only flagged removals', FUNCTIONAL model of the walk (leaves carry particle identities; flagged leaf
+   freed, node with 0 particles freed, with 1 particle derefined; array: particles[oldpos] = particles[N-1]): the
+   result is the well-formed tree of the survivors with the leaves in the same order, the array holds exactly the
+   survivors once each ... *)
+Theorem C15_flagged_removal : forall u pos flagged l c t arr, wf u pos l c t -> NoDup arr -> Permutation arr (leaves t) ->
+  let arr' := fold_left swap_remove (filter flagged (leaves t)) arr in
+  owf u pos l c (prune flagged t) /\ oleaves (prune flagged t) = filter (fun p => negb (flagged p)) (leaves t) /\
+  Permutation arr' (oleaves (prune flagged t)) /\ NoDup arr' /\
+  (length arr' + length (filter flagged (leaves t)) = length arr)%nat.
+Proof. exact flagged_removal. Qed.
+Print Assumptions C15_flagged_removal.
+
+(* ... and with every leaf holding the index of its particle in the NEW array (what the back-pointer fix-up
+   c->pt = oldpos maintains) the tree is well formed w.r.t. the new array and its leaves are exactly 0..N'-1. *)
+Theorem C15_flagged_removal_indices : forall u pos flagged l c t arr t', wf u pos l c t -> NoDup arr -> Permutation arr (leaves t) ->
+  prune flagged t = Some t' ->
+  let arr' := fold_left swap_remove (filter flagged (leaves t)) arr in
+  let pos' := fun i => pos (nth i arr' 0%nat) in
+  wf u pos' l c (relabel (idx arr') t') /\ Permutation (leaves (relabel (idx arr') t')) (seq 0 (length arr')).
+Proof. exact flagged_removal_indices. Qed.
+Print Assumptions C15_flagged_removal_indices.
 
 (* Non-vacuity: three particles in a cell of level 3 (half-width 8) around the origin, two of them in the same
    octant two levels deep: the insertions succeed, the result is a node of 3 whose leaf list is [2;1;0]-permuted,
